@@ -7,9 +7,11 @@
    the figures are a function of (children, sliced_inds) for every state satisfying the invariant.
    What is certified PER RUN (verified checker, soundness proved here, executed inside Coq on
    every state the real code reaches): the invariant itself.
-   NOT proved: prim_preserves_Inv (the inductive step for each primitive) -- C04_totals_eq_rebuild
-   is therefore stated for states that satisfy CostInv, and CostInv is established per observed
-   state by C04_cost_checker_sound, not by induction over traces.  See docs/C04.md. *)
+   (Round 1 stated C04_totals_eq_rebuild for states that satisfy CostInv, established per observed
+   state by C04_cost_checker_sound.  Since then the inductive step IS proved: every primitive of the
+   trace alphabet preserves the cost invariant InvC under its stated precondition --
+   C04_prim_preserves_inv / C04_trace_from_fresh_tree in Props/C04fin.v are the full-strength forms
+   of the `_partial` theorems below; Props/C04str.v, C04par.v refine the preconditions.)  See docs/C04.md. *)
 From Coq Require Import Lia.
 From Coq Require Import Permutation.
 From Ctg Require Import Base Net BaseFacts NetFacts TreeState TreeStateFacts TreeStateInv TreeStatePre TreeStateMon.
@@ -115,9 +117,14 @@ Print Assumptions C04_remove_ind_former_witness_ok.
    restore_ind (precondition rs_pre: the index is removed and the removed indices are distinct, the
    three totals are tracked, dimension > 0, output indices occur on inputs, the dfs traversal
    enumerates `children` with children before parents, every `children` key is the sorted union of
-   its two children and has an info entry, every internal info node is a `children` key).  NOT yet
-   proved: total_flops / total_write / max_size when they recompute (same argument as
-   contract_stats).  (The next lines are from round 2.)  Previously open: remove_ind, restore_ind, the recipe
+   its two children and has an info entry, every internal info node is a `children` key).
+   total_flops / total_write / max_size WHEN THEY RECOMPUTE are proved in Proofs/TreeStateTotals.v
+   (C04fin_total_flops / C04fin_total_write / C04fin_max_size, same argument as contract_stats, one
+   accumulator each); with them the statement holds for EVERY primitive: the un-suffixed
+   C04_prim_preserves_inv and C04_trace_from_fresh_tree are in Props/C04fin.v (precondition prim_pre2 =
+   prim_pre, plus the three totals also when they recompute; C04_prim_pre_implies_full).  The theorem
+   below is kept under its historical name; it is the same statement for prim_pre.
+   (The next lines are from round 2.)  Previously open: remove_ind, restore_ind, the recipe
    getters and sort/reset of contraction indices (these do not touch cost fields but are not
    covered by the statement).  Hence the `_partial` suffix. *)
 Theorem C04_prim_preserves_inv_partial : forall n, 2 <= NN n -> NoDup (output n) ->
@@ -196,9 +203,9 @@ Print Assumptions C04_figures_function_of_children_and_removed_set.
 
 (* slice_unslice_roundtrip, partial: if the sliced/projected indices are the same multiset again (in
    any order of removal / restoration) and the tree is the same, the tracked totals and multiplicity are
-   the original ones.  PARTIAL because it needs InvC of BOTH states: InvC is proved to be preserved by
-   remove_ind and by every other primitive except restore_ind, so for a history that contains
-   restore_ind the hypothesis on the final state is certified per run (cost_inv_b), not proved. *)
+   the original ones.  Stated with InvC of BOTH states as hypotheses; since round 4 InvC is proved to be
+   preserved by restore_ind too, and C04_slice_unslice_roundtrip (below) discharges both hypotheses for
+   boolean-checked histories from a fresh tree. *)
 Theorem C04_slice_unslice_roundtrip_partial : forall n, 2 <= NN n -> NoDup (output n) ->
   forall s1 s2, InvC n s1 -> InvC n s2 -> children s1 = children s2 ->
   Permutation (sliced s1) (sliced s2) ->
